@@ -102,3 +102,27 @@ def preParse (n : Nat) (text : List Char) : List Char :=
   (full.drop 2).dropLast.dropLast
 
 end Bluebell
+
+namespace Bluebell
+
+/-- The normalised lines `pre_parse` works on. -/
+def normLines (n : Nat) (text : List Char) : List (List Char) :=
+  linesOf (ensureFinalNewline (stripTrailingSpaces (pyStrip (detab n text))))
+
+def Prefix.delta : Prefix → Int
+  | .same => 0
+  | .indent => 1
+  | .dedent k => -(k : Int)
+
+/-- Per non-blank line: (leading spaces, marker depth after the line's prefix, stack after). -/
+def traceLines : List (List Char) → List Int → Int → List (Nat × Int × List Int)
+  | [], _, _ => []
+  | l :: ls, st, d =>
+    if l = [] then traceLines ls st d
+    else
+      let k := leadingSpaces l
+      let h := handleIndent k st
+      let d' := d + h.2.delta
+      (k, d', h.1) :: traceLines ls h.1 d'
+
+end Bluebell
